@@ -65,7 +65,9 @@ def list_obligation(chk, prog, spec, hs):
                             and (not desc['page_token'] or replay.uuid_int(x['id']) > replay.uuid_int(desc['page_token']))),
                            key=lambda x: replay.uuid_int(x['id']))
             want = [x['name'] for x in cands[:eff]]
-            return (got != want), path
+            want_token = cands[:eff][-1]['id'] if len(cands[:eff]) >= eff else ''
+            got_token = (r.get('response') or {}).get('nextPageToken', '')
+            return (got != want or got_token != want_token), path
         ob.verify(ex, 'list-succeeds', err is None, describe, replay=rp)
         if err is not None:
             return
